@@ -126,7 +126,7 @@ void h_run(Ctx &c)
 		vrt_run();
 	} else {
 		for (unsigned i = 0; i < ninj; i++)
-			vrt_spawn(injector, (void *)(intptr_t)i, 1);
+			vrt_set_role(vrt_spawn(injector, (void *)(intptr_t)i, 1), 1); // invocations of the one input interrupt
 		vrt_isr_enable(1);
 		main_passes((void *)(intptr_t)passes);
 		vrt_point();
